@@ -58,9 +58,10 @@ def itemOctet : Item → Bool
   | .int n => octet n
   | .other => false
 
-/-- the telegram can be put on the wire: items are octets, the 6-bit value fits, the NPDU length fits -/
+/-- the telegram can be put on the wire: a DPTArray is not empty (`GroupValueWrite.to_knx` refuses it: it would read
+back as DPTBinary(0)) and holds octets, the 6-bit value fits, the NPDU length fits -/
 def wireValid : Payload → Bool
-  | .arr xs => xs.all itemOctet && decide (xs.length + 1 ≤ Generated.Send.maxNpduLength)
+  | .arr xs => !xs.isEmpty && xs.all itemOctet && decide (xs.length + 1 ≤ Generated.Send.maxNpduLength)
   | .bin n => decide (0 ≤ n) && decide (n ≤ (Generated.Send.apciBitmask : Int))
 
 /-- `DPTArray.__init__` : int → 1-tuple; list/bytes/tuple → tuple; else TypeError.  Items are not looked at. -/
@@ -110,10 +111,11 @@ def catchTypeIndex (r : Except Err Payload) : Except Err Payload :=
   | .error .indexError => .error .conversion
   | r => r
 
-/-- the final guards of `_parse_payload`: items are octets, the NPDU length fits -/
+/-- the final guards of `_parse_payload`: not empty, items are octets, the NPDU length fits -/
 def finalGuards : Payload → Except Err Payload
   | .arr xs =>
-    if !xs.all itemOctet then .error .conversion
+    if xs.isEmpty then .error .conversion
+    else if !xs.all itemOctet then .error .conversion
     else if xs.length ≥ Generated.Send.maxNpduLength then .error .conversion
     else .ok (.arr xs)
   | p => .ok p
@@ -231,10 +233,11 @@ def itemNat : Item → Nat
   | .int n => n.toNat
   | .other => 0
 
-/-- `encode_cmd_and_payload` + `bytes(value)`; `none` = `bytes()` raises -/
+/-- `GroupValueWrite/Response.to_knx`: `encode_cmd_and_payload` + `bytes(value)`; `none` = it raises (empty array:
+ConversionError; `bytes()` of a non-octet item) -/
 def apdu (code : Nat) : Payload → Option (List Nat)
   | .bin n => some [(code / 256) % 4, (code % 256) ||| (n.toNat &&& Generated.Send.apciBitmask)]
-  | .arr xs => if xs.all itemOctet then some ([(code / 256) % 4, code % 256] ++ xs.map itemNat) else none
+  | .arr xs => if !xs.isEmpty && xs.all itemOctet then some ([(code / 256) % 4, code % 256] ++ xs.map itemNat) else none
 
 /-- `GroupValueWrite.from_knx` -/
 def apduDecode : List Nat → Option Payload
